@@ -1481,7 +1481,7 @@ func (v *VMValue) ComputedExecute(ctx *Context, detail *BufferSpan) *VMValue {
 	vm.GlobalValueLoadOverwriteFunc = ctx.GlobalValueLoadOverwriteFunc
 	vm.subThreadDepth = ctx.subThreadDepth + 1
 	vm.UpCtx = ctx
-	vm.NumOpCount = ctx.NumOpCount + 100
+	vm.NumOpCount = opCountAdd(ctx.NumOpCount, 100)
 	ctx.NumOpCount = vm.NumOpCount // 防止无限递归
 	vm.RandSrc = ctx.RandSrc
 	vm.forceSolveDetail = true
@@ -1537,6 +1537,15 @@ func (v *VMValue) ComputedExecute(ctx *Context, detail *BufferSpan) *VMValue {
 	return ret
 }
 
+// opCountAdd adds to an operation count without wrapping around.
+func opCountAdd(count IntType, n IntType) IntType {
+	const maxCount = IntType(^uint(0) >> 1)
+	if n > 0 && count > maxCount-n {
+		return maxCount
+	}
+	return count + n
+}
+
 func (v *VMValue) FuncInvoke(ctx *Context, params []*VMValue) *VMValue {
 	return v.FuncInvokeRaw(ctx, params, false)
 }
@@ -1571,8 +1580,8 @@ func (v *VMValue) FuncInvokeRaw(ctx *Context, params []*VMValue, useUpCtxLocal b
 	vm.GlobalValueLoadOverwriteFunc = ctx.GlobalValueLoadOverwriteFunc
 	vm.subThreadDepth = ctx.subThreadDepth + 1
 	vm.UpCtx = ctx
-	vm.NumOpCount = ctx.NumOpCount + 100 // 递归视为消耗 + 100
-	ctx.NumOpCount = vm.NumOpCount       // 防止无限递归
+	vm.NumOpCount = opCountAdd(ctx.NumOpCount, 100) // 递归视为消耗 + 100
+	ctx.NumOpCount = vm.NumOpCount                  // 防止无限递归
 	vm.RandSrc = ctx.RandSrc
 	vm.CustomFlag = ctx.CustomFlag
 	if ctx.Config.OpCountLimit > 0 && vm.NumOpCount > vm.Config.OpCountLimit {
